@@ -286,6 +286,7 @@ func runC02(p *Prog, r *Report) {
 		why:       "line wrapping must not alter glyph storage that it shares with the input runs and with other candidates", floorSeen: 30})
 	ruleAdv(p, r)
 	ruleCut(p, r)
+	wrapperState(p, r)
 	r.Assumptions = append(r.Assumptions, "RunIterator implementations outside the module are not analysed")
 	r.NotDecided = append(r.NotDecided, "exact-once coverage of the paragraph, order, cluster integrity, non-empty lines, termination of the wrapping loops (runtime arithmetic)")
 }
@@ -420,8 +421,46 @@ func runC03(p *Prog, r *Report) {
 	ruleValid(p, r)
 	ruleNever(p, r)
 	ruleReq(p, r)
+	ruleFastPath(p, r)
+	wrapperState(p, r)
 	r.Assumptions = append(r.Assumptions, "break candidates are those of the segmenter (C06); cluster boundaries those of the shaped input")
 	r.NotDecided = append(r.NotDecided, "that candidates equal UAX #14/#29 opportunities", "the WhenNecessary 'cannot fit by itself' law", "mandatory breaks fused into one cluster by shaping")
+}
+
+// ruleFastPath: the single-run shortcut of WrapParagraph is taken only after the UAX#14 candidates were scanned to
+// exhaustion, and never on a path that saw a mandatory candidate.
+func ruleFastPath(p *Prog, r *Report) {
+	const rule = "R-FAST"
+	r.Explain = append(r.Explain, "R-FAST: in WrapParagraph the single-run shortcut (singleRunParagraph) is reachable only through the exhausted edge of the nextWordBreak scan, and not from the edge on which a candidate's `required` flag was seen (path-sensitive over the constant flag phi).")
+	wp := p.Func("shaping", "LineWrapper", "WrapParagraph")
+	single := p.Func("shaping", "wrapBuffer", "singleRunParagraph")
+	nwb := p.Func("shaping", "breaker", "nextWordBreak")
+	fReq := p.Field("shaping", "breakOption", "required")
+	isSite := func(in ssa.Instruction) bool { return staticCallTo(in, single) }
+	sites := callsOf(wp, single)
+	r.Floor(rule, len(sites), 1)
+	key := p.FnName(wp) + "/singleRunParagraph"
+	r.Instance(rule, key)
+	// (A) every path to the shortcut uses the `!ok` edge of a nextWordBreak scan
+	var okIfs []*ssa.If
+	for _, c := range callsOf(wp, nwb) {
+		okIfs = append(okIfs, ifsOn(wp, func(v ssa.Value) bool {
+			ex, ok := v.(*ssa.Extract)
+			return ok && ex.Tuple == ssa.Value(c) && ex.Index == 1
+		})...)
+	}
+	okA := len(okIfs) > 0 && !reachConstPhi(wp, wp.Blocks[0], nil, isSite, cutBranch(false, okIfs...))
+	r.Check(okA, rule, key+"/scan", p.Pos(wp.Pos()), "the shortcut is reachable only after nextWordBreak reported that no candidate is left")
+	// (B) not reachable from the edge on which a required candidate was seen
+	okB := true
+	n := 0
+	for _, iff := range ifsOn(wp, func(v ssa.Value) bool { return fieldOf(v) == fReq || isLoadOfField(v, fReq) }) {
+		n++
+		if reachConstPhi(wp, iff.Block().Succs[0], iff.Block(), isSite, nil) {
+			okB = false
+		}
+	}
+	r.Check(okB && n > 0, rule, key+"/required", p.Pos(wp.Pos()), "the shortcut is not reachable from the edge on which a mandatory candidate was seen")
 }
 
 func callsOf(f *ssa.Function, callee *ssa.Function) []*ssa.Call {
@@ -939,6 +978,7 @@ func ruleSide(p *Prog, r *Report) {
 }
 
 func controlsWrap(cp *Prog, r *Report) {
+	controlsState(cp, r)
 	expectControl(r, "R-WHO(region)", func(cr *Report) {
 		ruleWho(cp, cr, whoCfg{rule: "R-GLYPHS", pkg: "own", typ: "Glyph", entries: []fnRef{{"own", "", "WrapGood"}}, why: "x", floorSeen: 1})
 		ruleWho(cp, cr, whoCfg{rule: "R-GLYPHS", pkg: "own", typ: "Glyph", entries: []fnRef{{"own", "", "WrapBad"}}, why: "x", floorSeen: 1})
@@ -967,4 +1007,18 @@ func controlsWrap(cp *Prog, r *Report) {
 			return types.Identical(deref(fa.X.Type()), G) && fieldOf(fa) == adv
 		}, func(in ssa.Instruction) bool { return staticCallTo(in, rec) }, "own", "Recompute", 3)
 	}, "(*own.Run).SpaceBad", "own.CutBad", "own.WrapBad")
+}
+
+// wrapperState: the LineWrapper is a reusable object; the wrapping properties quantify over any paragraph handed to a
+// wrapper that may have been used before, so reset completeness of its state (R-STATE, shared with C13) is a necessary
+// condition: a rune->glyph mapping or a candidate that survives from an earlier paragraph breaks cluster integrity.
+func wrapperState(p *Prog, r *Report) {
+	r.Explain = append(r.Explain, "R-STATE (shared with C13): every field of the LineWrapper's state that WrapParagraph/Prepare may read before writing, or WrapNextLine may read without Prepare having written it, is classified with a reason — a mapping, candidate or break position surviving from an earlier paragraph would put glyphs of the wrong clusters on a line.")
+	fx := NewFX(p)
+	fx.Run()
+	for _, c := range stateConfigs() {
+		if c.name == "shaping.LineWrapper" {
+			ruleState(p, r, fx, c)
+		}
+	}
 }
